@@ -319,7 +319,7 @@ def run(chk):
         dts, sts = rng.choice(DT_LITS), rng.choice(START_LITS)
         dt, start = float(dts), float(sts)
         s0 = rng.choice([0, 1, 3, 7])
-        n = rng.randint(1, 5)
+        n = rng.randint(1, 5) if i % 2 == 0 else rng.randint(2, 5)
         chain = oqupy.SystemChain([2, 2])
         chain.add_site_hamiltonian(0, 0.5 * oqupy.operators.sigma("z"))
         info = {"kind": "pttebd-times", "dt": dts, "start": sts, "start_step": s0, "n": n}
@@ -327,6 +327,11 @@ def run(chk):
             tb = oqupy.PtTebd(initial_augmented_mps=oqupy.AugmentedMPS([_rho, _rho]), system_chain=chain, process_tensors=[None, None],
                               parameters=oqupy.PtTebdParameters(dt=dt, order=1, epsrel=1e-6), dynamics_sites=[0],
                               start_time=start, start_step=s0)
+            # half of the runs reach the end step in two compute calls and ask for it a second time
+            if i % 2 == 1 and n >= 2:
+                info["continued_from"] = s0 + rng.randint(1, n - 1)
+                quiet(tb.compute, info["continued_from"], progress_type="silent")
+                quiet(tb.compute, s0 + n, progress_type="silent")
             res = quiet(tb.compute, s0 + n, progress_type="silent")
             times = [float(t) for t in res["time"]]
             dtimes = [float(t) for t in res["dynamics"][0].times]
